@@ -5,6 +5,7 @@ import TinsModel.Wire.Wifi.TheoremsEapol
 import TinsModel.Wire.Wifi.TheoremsEapolReparse
 import TinsModel.Wire.Wifi.TheoremsRadioTap
 import TinsModel.Wire.Wifi.TheoremsCodec
+import TinsModel.Wire.Wifi.TheoremsSetters
 /-
   Per-layer theorems of the Wifi family for the four wire properties (C01 parse_safe, C02 writesOnly,
   C03 reparse, C04 codec inverses), split by class group:
@@ -15,6 +16,7 @@ import TinsModel.Wire.Wifi.TheoremsCodec
     TheoremsEapol     RC4EAPOL / RSNEAPOL / `EAPOL::from_bytes`
     TheoremsEapolReparse  C03 for the EAPOL key frames
     TheoremsCodec     C04: decode ∘ encode = id for every typed tagged option and RSNInformation (explicit Repr)
+    TheoremsSetters   C04: bit-field / member setters and getters of the raw structs form a last-write map
     TheoremsRadioTap  RadioTap: the RadioTapParser walk is memory-safe and terminates, parse safety, FCS trailer writer
 -/
 namespace Tins.Wire.Wifi
